@@ -16,7 +16,7 @@ Proof. intro H. unfold canon, lex. now rewrite H. Qed.
 Lemma canon_layout l tail :
   lay_ok l (hd_error tail) = true -> forallb is_blank tail = true ->
   canon (unlex l tail) = render (normalise (map snd l)).
-Proof. intros H1 H2. apply canon_lex. now apply relex. Qed.
+Proof. intros H1 H2. apply (canon_lex _ l tail). now apply relex. Qed.
 
 Definition nt (l : list ltok) : list token := flat_map norm_tok (map snd l).
 
@@ -84,7 +84,7 @@ Proof.
   destruct p; cbn [stops]; unfold onhd, ohd, at_eol; try reflexivity;
     rewrite ?P0, ?P1, ?P2, ?P3, ?P4, ?P5, ?P7, ?P8; try reflexivity.
   destruct o as [|x [|y o]]; try reflexivity.
-  rewrite P9, P5, P6. reflexivity.
+  rewrite ?P9, ?P5, ?P6. reflexivity.
 Qed.
 
 (* the first character of a word with blanks in front, in two spellings *)
@@ -138,7 +138,8 @@ Proof.
     destruct (lex_lay_ok _ _ _ Hl) as (_ & Hok & Htl).
   - destruct (mid_parts _ _ _ _ _ Hok) as (M1 & M2 & M3 & M4 & M5).
     apply (canon_same _ _ _ _ _ Hl); [|exact Htl|].
-    + apply (replace_mid _ _ _ _ _ _ _ Hok Hw M3 M4). now apply (sep_ok_lay _ _ _ _ M1).
+    + apply (replace_mid _ _ _ _ _ _ _ Hok Hw); [exact M3 | exact M4 |].
+      now apply (sep_ok_lay _ _ _ _ M1).
     + now rewrite !nt_app, !nt_cons.
   - apply (canon_same _ _ _ _ _ Hl); [|exact Hw|reflexivity].
     apply (lay_ok_last _ _ _ Hok). unfold tail_ok in Hs.
@@ -151,7 +152,7 @@ Qed.
 Lemma lines_nonempty l : lines l <> [].
 Proof.
   induction l as [|t l IH]; [discriminate|]. simpl.
-  destruct t; try (destruct (lines l); discriminate). discriminate.
+  destruct t; destruct (lines l); discriminate.
 Qed.
 
 Lemma lines_cons t l :
@@ -164,7 +165,6 @@ Proof.
   induction a as [|t a IH]; [reflexivity|].
   destruct t; try (cbn [app lines]; rewrite IH;
     destruct (lines a) as [|h tl] eqn:E; [now destruct (lines_nonempty a) | reflexivity]).
-  cbn [app lines]. now rewrite IH.
 Qed.
 
 (* a line that is dropped may be inserted at the start of any line *)
@@ -216,7 +216,7 @@ Proof.
   - (* text of an apostrophe comment *)
     destruct (mid_parts _ _ _ _ _ Hok) as (M1 & M2 & M3 & M4 & M5).
     apply (canon_same _ _ _ _ _ Hl); [|exact Htl|].
-    + apply (replace_mid _ _ _ _ _ _ _ Hok M2 Hb M4).
+    + apply (replace_mid _ _ _ _ _ _ _ Hok M2); [exact Hb | exact M4 |].
       cbn [text] in *. now rewrite (hd_error_app_cons ws 39 b' b).
     + now rewrite !nt_app, !nt_cons.
   - (* text of a REM comment *)
@@ -234,13 +234,15 @@ Proof.
   - (* a comment added at the end of a line *)
     destruct (mid_parts _ _ _ _ _ Hok) as (M1 & M2 & M3 & M4 & M5).
     apply (canon_same _ _ _ _ _ Hl); [|exact Htl|].
-    + rewrite lay_ok_app. cbn [lay_ok hd_lay app text hd_error stops at_eol tok_ok forallb].
-      rewrite (sep_ok_lay _ _ _ _ M1 Hs), Hw, Hb, M5. reflexivity.
+    + pose proof (sep_ok_lay _ _ _ _ M1 Hs) as Hsep. cbn [text] in Hsep.
+      rewrite lay_ok_app. cbn [lay_ok hd_lay app text hd_error stops at_eol tok_ok forallb].
+      rewrite Hsep, Hw, Hb, M5. reflexivity.
     + now rewrite !nt_app, !nt_cons.
   - (* a comment added at the end of the text *)
     apply (canon_same _ _ _ _ _ Hl); [|reflexivity|].
-    + rewrite lay_ok_app. cbn [lay_ok hd_lay stops at_eol tok_ok hd_error].
-      rewrite (sep_ok_lay _ _ _ _ Hok Hs), Htl, Hb. reflexivity.
+    + pose proof (sep_ok_lay _ _ _ _ Hok Hs) as Hsep. cbn [text] in Hsep.
+      rewrite lay_ok_app. cbn [lay_ok hd_lay text stops at_eol tok_ok hd_error].
+      rewrite Hsep, Htl, Hb. reflexivity.
     + rewrite nt_app, nt_cons. cbn [norm_tok nt map flat_map app]. now rewrite app_nil_r.
   - (* an empty line *)
     rewrite lay_ok_app in Hok. apply andb_true_iff in Hok as [O1 O2].
